@@ -314,12 +314,14 @@ impl Scenario for C19 {
                             break;
                         }
                         m[a].users.remove(0);
-                        // S4: associations with pending user requests take turns: `a` is not served
+                        // S4: associations with pending user requests take turns: the served association moves to
+                        // the back of the ring, so `a` is not served
                         // twice in a row while a request of another association that was already
                         // waiting at the previous turn is still waiting
                         if let Some((prev, uid_then)) = last_served {
                             if prev == a {
-                                if let Some(b) = (0..self.n).find(|b| *b != a && m[*b].users.first().map(|x| *x <= uid_then).unwrap_or(false)) {
+                                let _ = uid_then;
+                                if let Some(b) = (0..self.n).find(|b| *b != a && m[*b].users.first().is_some()) {
                                     v = Some(Violation::new(
                                         "C19.S4",
                                         "association-served-twice-while-another-waits",
